@@ -587,3 +587,24 @@ def _c20(work, v, tier, seed):
 
 
 PIPELINES["C20"] = _c20
+
+
+def prot_account(v, trace, res):
+    simple_account(v, trace, res, "protdist", "Trace_ProtDist",
+                   key=lambda e: {k: e.get(k) for k in ("t", "rows", "model", "modelfreqs", "gamma", "alpha", "rmgaps", "wts", "what")},
+                   sample=lambda e: {"rows": [_s(r) for r in e["rows"]][:3], "model": e["model"], "model_frequencies": e["modelfreqs"], "gamma": e["gamma"],
+                                     "rmgaps": e["rmgaps"], "outcome": e.get("kind", e.get("what"))},
+                   describe=lambda e: {"model": e["model"], "modelfreqs": e["modelfreqs"], "gamma": e["gamma"], "alpha": e["alpha"], "rmgaps": e["rmgaps"],
+                                       "rows": [_s(r) for r in e["rows"]], "D": e.get("D"), "what": e.get("what"), "msg": e.get("msg", "")})
+
+
+def _c17(work, v, tier, seed):
+    vf.build_driver(work)
+    trace = vf.drive(work, "protdist", n=80 if tier == "quick" else 1500, seed=seed, tier=tier, timeout=3000)
+    res = vf.tlc_trace(work, "Trace_ProtDist", trace, cfg=write_cfg(work, "Trace_ProtDist.cfg", invariants=["Done"]), timeout=6000)
+    prot_account(v, trace, res)
+    v.assumptions += ["TLC and the CommunityModules evaluate TLA+ correctly", "java.lang.Math exp/log/pow accurate to 1e-12",
+                      "the eigen-system logged is the one the model uses (read through reflection, not recomputed)"]
+
+
+PIPELINES["C17"] = _c17
